@@ -4,6 +4,7 @@
 // Every function that would MODIFY the file system requires false: the effect obligation of C13.
 pub uninterp spec fn file_content(path: Seq<char>) -> Seq<u8>;
 pub uninterp spec fn mime_of(path: Seq<char>) -> Seq<char>;
+pub uninterp spec fn mime_listed(path: Seq<char>) -> bool;     // the registry table has a row for this name (contracts/spec/mime.rs, unit mime)
 pub uninterp spec fn cwd() -> Seq<char>;                       // absolute path of the served directory
 pub uninterp spec fn fs_is_file(path: Seq<char>) -> bool;
 pub uninterp spec fn fs_is_dir(path: Seq<char>) -> bool;
